@@ -22,7 +22,7 @@ ASSUMPTIONS = [
     "ground truth is the generator's binding table; it is validated by reference renames that must leave the program's output unchanged (vlib self-check)",
     "module/package names and dunder names are not queried here (C01/C05 move modules)",
 ]
-BUDGET = {"quick": (640, 240), "thorough": (12000, 2700)}
+BUDGET = {"quick": (800, 240), "thorough": (15000, 2700)}
 
 
 @st.composite
@@ -87,8 +87,29 @@ def star_scenarios(draw):
     return {"scenario": "star_import_order", "files": files, "expected": groups}
 
 
+@st.composite
+def global_scenarios(draw):
+    """one global statement that declares several names, each assigned in the function and used at module level"""
+    names = draw(st.permutations(["counter", "total", "last"]))[: draw(st.integers(2, 3))]
+    parts = []
+    for n in names:
+        parts += [(n, n), " = 0\n"]
+    parts += ["def bump():\n    global "]
+    for k_, n in enumerate(names):
+        parts += ([", "] if k_ else []) + [(n, n)]
+    parts += ["\n"]
+    for n in names:
+        parts += ["    ", (n, n), " = ", (n, n), " + 1\n"]
+    parts += ["bump()\nprint("]
+    for k_, n in enumerate(names):
+        parts += ([", "] if k_ else []) + [(n, n)]
+    parts += [")\n"]
+    files, groups = _build({"glob.py": parts})
+    return {"scenario": "multi_name_global", "files": files, "expected": groups}
+
+
 def strategy(tier):
-    return st.one_of(*([projgen.projects()] * 15 + [kwargs_scenarios(), header_scenarios(), star_scenarios()]))
+    return st.one_of(*([projgen.projects()] * 15 + [kwargs_scenarios(), header_scenarios(), star_scenarios(), global_scenarios()]))
 
 
 def describe(case):
